@@ -1,7 +1,7 @@
 (* C31 -- property theorems only.  Each closed by [exact]; Print Assumptions beneath. *)
 From Coq Require Import List ZArith Bool.
 Import ListNotations.
-Require Import V.C31.Model V.C31.Proofs.
+Require Import V.C31.Model V.C31.Proofs V.C31.Instance.
 Open Scope Z_scope.
 
 (* Framing decision on a reused connection (Responder.reset/start/build after the fix):
@@ -84,6 +84,23 @@ Theorem every_request_answerable :
 Proof. exact progress. Qed.
 Print Assumptions every_request_answerable.
 
+(* The two codec premises are satisfiable (by a concrete self-delimiting codec with a toy
+   3-element head), so the three theorems above are not vacuous ... *)
+Theorem codec_contracts_satisfiable :
+  (forall m rest, delimited m -> toy_parse (toy_ser m ++ rest) = Some (m, rest)) /\
+  (forall m pre suf, delimited m -> toy_ser m = pre ++ suf -> suf <> [] -> toy_parse pre = None).
+Proof. exact (conj toy_complete toy_incomplete). Qed.
+Print Assumptions codec_contracts_satisfiable.
+
+(* ... and for that codec the N-requests theorem holds with no premise about the codec. *)
+Theorem n_requests_n_responses_concrete : forall (app : Z -> resp) sched,
+  (forall r, wf_resp (app r) = true) ->
+  let s := run app (fun _ => true) toy_ser toy_parse sched in
+  pend s = [] -> waited s = None ->
+  got s = serve_all app (fun _ => true) None (allreqs s) /\ length (got s) = length (allreqs s).
+Proof. exact toy_session. Qed.
+Print Assumptions n_requests_n_responses_concrete.
+
 (* non-vacuity: fixed, streamed, empty, fixed, streamed on one connection *)
 Example c31_framings_example :
   let a cl body := {| r_status := 200; r_cl := cl; r_te := false; r_body := body |} in
@@ -94,3 +111,14 @@ Example c31_framings_example :
             (true, a (Some 0) []); (true, a None [122])]
   = [Length 1; UntilClose; UntilClose; Length 0; UntilClose].
 Proof. vm_compute. split; reflexivity. Qed.
+
+(* a concrete schedule with partial transfers: 2 requests, the second enqueued late *)
+Example c31_run_example :
+  let app := fun r : Z => {| r_status := 200; r_cl := if r =? 1 then Some 2 else None; r_te := false;
+                             r_body := [r; r] |} in
+  let s := run app (fun _ => true) toy_ser toy_parse
+               [Enq 1; CSend; CRecv; SServe; Xfer 2; CRecv; Enq 2; Xfer 1; CRecv; Xfer 9; CSend; CRecv;
+                CSend; SServe; Xfer 4; CRecv; Xfer 1; CRecv] in
+  map fst (got s) = [1; 2] /\ map (fun x => m_frame (snd x)) (got s) = [Length 2; Chunked] /\
+  pend s = [] /\ waited s = None.
+Proof. vm_compute. repeat split; reflexivity. Qed.
